@@ -92,6 +92,25 @@ def r3_bounded_header(ctx):
     ctx.ob("R17.3", "read_http_header:eof-exit", okz, "", "a 0-byte read leaves the loop with an error" if okz else "a closed connection does not end the header loop (spin)")
 
 
+def r3c_first_terminator(ctx):
+    """the header block ends at the FIRST blank line of what was read; anything behind it is body / the next request"""
+    n = 0
+    bad = []
+    for key, body in ctx.P.bodies.items():
+        if not (key == HP + "find_header_end" or key.startswith(HP + "find_header_end::")):
+            continue
+        for c in body.calls():
+            n += 1
+            last = (c.norm or "").split("::")[-1]
+            if last in ("rposition", "rfind", "rev", "last", "max", "max_by_key", "next_back", "rsplit", "rsplit_once", "rsplitn", "rmatch_indices", "nth_back"):
+                bad.append(c)
+    if not ctx.floor("R17.3", "calls in find_header_end", n, 1):
+        return
+    ctx.ob("R17.3", "find_header_end:first-terminator-wins", not bad, bad[0].site if bad else "", "the terminator is searched front to back" if not bad else
+           "find_header_end searches with `%s` (from the back): when the bytes that arrived with the header contain another blank line (a multipart or text body, a pipelined second request) the boundary lands on the "
+           "last one — body lines are parsed and re-emitted as header lines and the body comes up short" % bad[0].norm.split("::")[-1])
+
+
 def r3b_scan_window(ctx):
     body = co(ctx, "R17.3", HP + "read_http_header")
     if body is None:
@@ -182,6 +201,17 @@ def r6_target_derivation(ctx):
         n_h += 1
         if not all(cfg.edges_dominate(e, defs_block) for e in sw_false.values() if e):
             bad_h.append(d)
+    # the Host value is everything after the field name (host[:port], IPv6 literals contain colons): not one field of a split
+    one_field = []
+    for l, d in host_defs:
+        t_ = o._def(d, (), 0, frozenset())
+        for s_ in subterms(t_):
+            if isinstance(s_, tuple) and s_ and s_[0] == "call" and "str::" in s_[1] and "Split" in s_[1] and s_[1].endswith(("::next", "::nth", "::last", "::next_back")):
+                one_field.append(s_)
+    if host_defs:
+        ctx.ob("R17.6", "determine_target:Host-value-is-the-whole-field-value", not one_field, "",
+               "the Host header's value is the rest of the line after the field name" if not one_field else
+               "the Host header's value is one piece of a split of the line (`%s`): `Host: app.internal:8080` loses its port (the request goes to port 80) and a bracketed IPv6 literal is cut at its first colon" % fmt(one_field[0])[:70])
     if n_h:
         ctx.ob("R17.6", "determine_target:Host-header-only-for-non-absolute-target", not bad_h, "",
                "the destination is taken from the Host header only on the false edges of both scheme tests" if not bad_h else
@@ -265,6 +295,7 @@ def run(ctx):
     r2_early_bytes(ctx)
     r3_bounded_header(ctx)
     r3b_scan_window(ctx)
+    r3c_first_terminator(ctx)
     r6_target_derivation(ctx)
     r7_parsing_totality(ctx)
     r4_rewriting(ctx)
